@@ -7,9 +7,9 @@ import (
 	"encoding/json"
 	"fmt"
 	"math/rand"
-	"regexp"
 	"os"
 	"path/filepath"
+	"regexp"
 	"sort"
 	"strings"
 
@@ -378,12 +378,24 @@ func Files(j *job.Job, s *job.Sink) {
 		var layout []map[string]string
 		files := map[string][]cand{} // dir -> candidates for module "foo"
 		mk := 0
+		symlinks := 0
 		for _, d := range dirs {
 			os.MkdirAll(filepath.Join(root, d), 0o755)
 			add := func(fn, modname, rev string, isCand bool) {
 				mk++
 				marker := fmt.Sprintf("mk%d", mk)
-				os.WriteFile(filepath.Join(root, d, fn), []byte(mod(modname, marker, rev)), 0o644)
+				if r.Intn(4) == 0 {
+					// the file is a symbolic link into a store outside the search path (how
+					// package managers and build trees lay modules out); it is a candidate
+					// like any other
+					os.MkdirAll(filepath.Join(root, "store"), 0o755)
+					real := filepath.Join(root, "store", fmt.Sprintf("blob%d", mk))
+					os.WriteFile(real, []byte(mod(modname, marker, rev)), 0o644)
+					os.Symlink(real, filepath.Join(root, d, fn))
+					symlinks++
+				} else {
+					os.WriteFile(filepath.Join(root, d, fn), []byte(mod(modname, marker, rev)), 0o644)
+				}
 				layout = append(layout, map[string]string{"dir": d, "file": fn, "marker": marker})
 				if isCand {
 					files[d] = append(files[d], cand{d, fn, marker})
@@ -440,8 +452,15 @@ func Files(j *job.Job, s *job.Sink) {
 		}
 		via := []string{"read", "import"}[r.Intn(2)]
 		desc := map[string]any{"layout": layout, "search_path": dirs[1:], "entry_point": via}
+		viol := func(class, detail string) {
+			if j.Property != "C13" && !strings.HasPrefix(class, "position-") {
+				return // C16 borrows this family for the file names in positions only
+			}
+			s.Violation(c, j.CaseID(c), j.Property+".files", class, detail, desc, nil)
+		}
 		s.Current(c, desc)
 		s.Count("layouts", 1)
+		s.Count("layout_files_that_are_symlinks", int64(symlinks))
 		if len(layout) >= 3 {
 			s.Count("nontrivial", 1)
 		}
@@ -480,30 +499,39 @@ func Files(j *job.Job, s *job.Sink) {
 		}
 		for _, o := range opened {
 			if !candName.MatchString(filepath.Base(o)) {
-				s.Violation(c, j.CaseID(c), "C13.files", "trace-opened-a-foreign-file", fmt.Sprintf("opened %s while looking for module foo", o), desc, nil)
+				viol("trace-opened-a-foreign-file", fmt.Sprintf("opened %s while looking for module foo", o))
 			}
 		}
 		switch {
 		case want != "" && len(opened) != 1:
-			s.Violation(c, j.CaseID(c), "C13.files", "trace-file-reads", fmt.Sprintf("%d files opened (%v), expected exactly %s", len(opened), opened, wantFile), desc, nil)
+			viol("trace-file-reads", fmt.Sprintf("%d files opened (%v), expected exactly %s", len(opened), opened, wantFile))
 		case want != "" && filepath.Base(opened[0]) != wantFile:
-			s.Violation(c, j.CaseID(c), "C13.files", "trace-wrong-file", fmt.Sprintf("opened %s, expected %s", opened[0], wantFile), desc, nil)
+			viol("trace-wrong-file", fmt.Sprintf("opened %s, expected %s", opened[0], wantFile))
 		case want == "" && len(opened) > 0:
-			s.Violation(c, j.CaseID(c), "C13.files", "trace-file-reads", fmt.Sprintf("opened %v though no directory holds a candidate", opened), desc, nil)
+			viol("trace-file-reads", fmt.Sprintf("opened %v though no directory holds a candidate", opened))
 		}
 		got := ""
 		if m := ms.Modules["foo"]; m != nil && len(m.Leaf) > 0 {
 			got = m.Leaf[0].Name
+			// positions name the file that was read (C16): the module statement and the leaf
+			if len(opened) == 1 {
+				for _, st := range []*yang.Statement{m.Source, m.Leaf[0].Source} {
+					s.Count("file_positions_checked", 1)
+					if loc := st.Location(); !strings.HasPrefix(loc, opened[0]+":") {
+						viol("position-names-another-file", fmt.Sprintf("statement %s reports %s, the text was read from %s", st.Keyword, loc, opened[0]))
+					}
+				}
+			}
 		}
 		switch {
 		case want == "" && got != "":
-			s.Violation(c, j.CaseID(c), "C13.files", "loaded-without-candidate", fmt.Sprintf("loaded %s though no directory holds a candidate", got), desc, nil)
+			viol("loaded-without-candidate", fmt.Sprintf("loaded %s though no directory holds a candidate", got))
 		case want != "" && got != want:
-			s.Violation(c, j.CaseID(c), "C13.files", "wrong-file", fmt.Sprintf("loaded marker %q (err %v), expected %q", got, err, want), desc, nil)
+			viol("wrong-file", fmt.Sprintf("loaded marker %q (err %v), expected %q", got, err, want))
 		}
 		for n := range ms.Modules {
 			if !strings.HasPrefix(n, "foo") && n != "imp" || strings.HasPrefix(n, "foobar") || strings.HasPrefix(n, "foo-x") {
-				s.Violation(c, j.CaseID(c), "C13.files", "differently-named-module", "loaded "+n, desc, nil)
+				viol("differently-named-module", "loaded "+n)
 			}
 		}
 		os.RemoveAll(root)
